@@ -47,6 +47,8 @@ TraceBand ==
         /\ Report(e, Failing({
              <<"C16.accepts_documented_arguments", ok>>,
              <<"C16.band_shapes", ~ok \/ lens>>,
+             (* a query: neither the object nor the arrays the caller passed in are modified      *)
+             <<"C16.inputs_untouched", ~ok \/ r.inputs_untouched>>,
              <<"C16.rates_match_thresholds", ~lens \/ \A j \in 1..n :
                   /\ REq(r.fnr[j], R(fn[j], NPos(o))) /\ REq(r.fpr[j], R(fp[j], NNeg(o)))>>,
              <<"C16.bands_nan_free", ~lens \/ r.nan_free>>,
